@@ -116,7 +116,8 @@ CLAIMED = {
         "(pending_dedents, at_line_start, bracket_depth symbolic) on N = 2 (thorough 3) symbolic characters, against a reference in SMT: a pending dedent is emitted alone; at line start only "
         "handle_indentation runs; after spaces / tabs a line feed emits one NEWLINE and sets at_line_start iff bracket_depth = 0 and does nothing inside brackets; CR does nothing; a comment "
         "emits nothing and stops before its line feed; brackets move the depth by one. X-eof_dedents: the part of tokenize after the scanning loop, for 1..=4 (thorough 8) open levels: "
-        "levels - 1 DEDENTs, then one EOF, Ok iff no error was recorded.",
+        "levels - 1 DEDENTs, then one EOF, Ok iff no error was recorded. X-layout_frame (frame condition read from the MIR text, no solver query): the four layout fields are written only by "
+        "the functions the step obligations execute, by no token scanner.",
    note="Kernel-only: one call of handle_indentation and one call of scan_token (inductive steps from an arbitrary layout state). The composition over a whole file, the token scanners for "
         "non-layout characters (summarised as events: strings spanning lines, numbers, identifiers) and the parser's newline skipping inside literals are NOT covered - under Kani one lexer run on 3 symbolic layout characters does not finish (20+ min, 6 GB), and "
         "the token scanners slice the source string, for which the MIR executor has no model. Stand-ins: peek / advance / is_at_end as a character stream (their bodies drive a "
